@@ -217,10 +217,11 @@ def html_tables(text):
     t = text.replace("&nbsp;", " ").replace("&minus;", "-")
     t = re.sub(r"<!DOCTYPE[^>]*>", "", t, count=1)
     root = ET.fromstring(t)
-    H = {"_angles": 400, "_description": None}
+    H = {"_angles": 400, "_description": None, "_p": []}
     for e in root.iter():
         tag = e.tag.split("}")[-1]
         i = e.get("id")
+        if tag == "p": H["_p"].append((i, "".join(e.itertext())))
         if i == "angles360": H["_angles"] = 360
         if i == "description": H["_description"] = "".join(e.itertext())
         if tag == "table" and i:
@@ -252,10 +253,10 @@ def html_view(H):
         if len(c) >= 2 and c[0] == "" and c[1] != "" and all(x == "" for x in c[2:]):
             cur = c[1]; continue
         if len(c) == 8 and c[0] != "":
-            V["coords"].append({"index": int(c[0]), "id": cur, "c": c[1], "con": c[2] == "*", "approx": float(c[3]), "adj": float(c[5]), "sd": float(c[6])})
+            V["coords"].append({"index": int(c[0]), "id": cur, "c": c[1], "con": c[2] == "*", "approx": float(c[3]), "adj": float(c[5]), "sd": float(c[6]), "conf": c[7]})
     for (_, c) in H.get("adjusted_heights", []):
         if len(c) == 8 and c[0] != "":
-            V["coords"].append({"index": int(c[0]), "id": c[1], "c": "Z" if c[2] == "*" else "z", "con": c[2] == "*", "approx": float(c[3]), "adj": float(c[5]), "sd": float(c[6])})
+            V["coords"].append({"index": int(c[0]), "id": c[1], "c": "Z" if c[2] == "*" else "z", "con": c[2] == "*", "approx": float(c[3]), "adj": float(c[5]), "sd": float(c[6]), "conf": c[7]})
     for (_, c) in H.get("adjusted_orientations", []):
         if len(c) == 7:
             V["ori"].append({"index": int(c[0]), "id": c[1], "approx": aval(c[2]), "adj": aval(c[4]), "sd": float(c[5])})
@@ -364,10 +365,10 @@ def text_view(text, degrees):
     conv = dms2gon if degrees else float
     for l in S.get("Adjusted coordinates", []):
         m = re.match(r"^\s*(\d+)\s+([xyzXYZ])\s+(\*\s+)?(%s)\s+(%s)\s+(%s)\s+(%s)\s+(%s)\s*$" % ((NUM,) * 5), l)
-        if m: V["coords"].append({"index": int(m.group(1)), "c": m.group(2), "con": bool(m.group(3)), "approx": float(m.group(4)), "adj": float(m.group(6)), "sd": float(m.group(7))})
+        if m: V["coords"].append({"index": int(m.group(1)), "c": m.group(2), "con": bool(m.group(3)), "approx": float(m.group(4)), "adj": float(m.group(6)), "sd": float(m.group(7)), "conf": m.group(8)})
     for l in S.get("Adjusted heights", []):
         m = re.match(r"^\s*(\d+)\s+(.*?)\s+(\*\s+)?(%s)\s+(%s)\s+(%s)\s+(%s)\s+(%s)\s*$" % ((NUM,) * 5), l)
-        if m: V["coords"].append({"index": int(m.group(1)), "c": "z", "id": m.group(2), "con": bool(m.group(3)), "approx": float(m.group(4)), "adj": float(m.group(6)), "sd": float(m.group(7))})
+        if m: V["coords"].append({"index": int(m.group(1)), "c": "z", "id": m.group(2), "con": bool(m.group(3)), "approx": float(m.group(4)), "adj": float(m.group(6)), "sd": float(m.group(7)), "conf": m.group(8)})
     for l in S.get("Adjusted orientation unknowns", []):
         m = re.match(r"^\s*(\d+)\s+(.*?)\s+(%s)\s+(%s)\s+(%s)\s+(%s)\s+(%s)\s*$" % (av, av, av, NUM, NUM), l)
         if m: V["ori"].append({"index": int(m.group(1)), "id": m.group(2), "approx": conv(m.group(3)), "adj": conv(m.group(5)), "sd": float(m.group(6))})
@@ -392,6 +393,93 @@ def text_view(text, degrees):
     V["has_res"] = "Residuals and analysis of observations" in S
     V["sections"] = list(S.keys())
     return V
+
+
+# ---------------------------------------------------------------- statistics block
+def fval(s):
+    """number as printed (nan / inf / -nan included); None when it is no number"""
+    try: return float(s)
+    except (TypeError, ValueError): return None
+
+
+_W = r"(\S+)"
+_PARTIAL = [("m0-distances", "m0'/m0 (distances): "), ("m0-directions", "m0'/m0 (directions): "), ("m0-angles", "m0'/m0 (angles): "),
+            ("m0-directions-angles", "m0'/m0 (directions/angles): ")]
+
+
+def _stats_tail(t, T):
+    """ratio / interval / partial ratios / maximal residual sentences (same wording in the text and in the HTML output)"""
+    m = re.search(r"Maximal decrease of m0''/m0 on elimination of one observation:\s*" + _W, t)
+    if m: T["max-decrease"] = fval(m.group(1))
+    m = re.search(r"Maximal (studentized|normalized) residual\s+" + _W + r"\s+(exceeds|does not exceed)\s+critical value\s+" + _W +
+                  r"\s*on significance level\s+" + _W + r"\s+% for observation #(\d+)", t)
+    if m:
+        T["max-kind"] = m.group(1); T["max-residual"] = fval(m.group(2)); T["max-exceeds"] = (m.group(3) == "exceeds")
+        T["critical-value"] = fval(m.group(4)); T["significance-pct"] = fval(m.group(5)); T["max-index"] = int(m.group(6))
+    elif "Maximal studentized residual" in t or "Maximal normalized residual" in t:
+        T["max-kind"] = "unparsed"
+
+
+def text_stats(text):
+    """statistics of the English text output ('General parameters of the adjustment'); a key is absent when the line is"""
+    T = {}
+    k = text.find("Number of project equations")
+    e = text.find("\nFixed points\n", k)
+    if e < 0: e = text.find("\nAdjusted ", k)
+    t = text[k:e if e > 0 else len(text)] if k >= 0 else ""
+    m = re.search(r"Number of project equations:\s*(\d+)\s+Number of unknowns:\s*(\d+)", t)
+    if m: T["equations"] = int(m.group(1)); T["unknowns"] = int(m.group(2))
+    m = re.search(r"Degrees of freedom\s*:\s*(-?\d+)\s+Network defect\s*:\s*(\d+)", t)
+    if m: T["dof"] = int(m.group(1)); T["defect"] = int(m.group(2))
+    m = re.search(r"m0  apriori\s*:\s*" + _W, t)
+    if m: T["apriori"] = fval(m.group(1))
+    m = re.search(r"m0' aposteriori:\s*" + _W + r"\s+\[pvv\] :\s*" + _W, t)
+    if m: T["aposteriori"] = fval(m.group(1)); T["pvv"] = fval(m.group(2))
+    m = re.search(r"- with (aposteriori|apriori) standard deviation\s+" + _W, t)
+    if m: T["used"] = m.group(1); T["m0-used"] = fval(m.group(2))
+    m = re.search(r"- with confidence level\s+" + _W + r" %", t)
+    if m: T["confidence-pct"] = fval(m.group(1))
+    m = re.search(r"Ratio m0' aposteriori / m0 apriori:\s*" + _W, t)
+    if m: T["ratio"] = fval(m.group(1))
+    m = re.search(_W + r" % interval \(" + r"([^,\s]+),\s*([^)\s]+)\)\s+(contains|does not contain) value m0'/m0", t)
+    if m:
+        T["interval-pct"] = fval(m.group(1)); T["lower"] = fval(m.group(2)); T["upper"] = fval(m.group(3)); T["passed"] = (m.group(4) == "contains")
+    elif "% interval" in t: T["interval-pct"] = None; T["lower"] = T["upper"] = None; T["passed"] = None
+    for key, lab in _PARTIAL:
+        m = re.search(re.escape(lab) + _W, t)
+        if m: T[key] = fval(m.group(1))
+    _stats_tail(t, T)
+    return T
+
+
+def html_stats(H):
+    """the same from the tables project_equations / sum_of_squares / standard_deviation / standard_deviation_2 and the paragraphs of the HTML output"""
+    T = {}
+    pe = H.get("project_equations") or []
+    if len(pe) >= 2 and len(pe[0][1]) >= 4 and len(pe[1][1]) >= 4:
+        T["equations"] = int(pe[0][1][1]); T["unknowns"] = int(pe[0][1][3]); T["dof"] = int(pe[1][1][1]); T["defect"] = int(pe[1][1][3])
+    ss = H.get("sum_of_squares") or []
+    if len(ss) >= 2 and len(ss[1][1]) >= 4:
+        T["apriori"] = fval(ss[0][1][1]); T["aposteriori"] = fval(ss[1][1][1]); T["pvv"] = fval(ss[1][1][3])
+    for (rid, c) in H.get("standard_deviation") or []:
+        if rid in ("a_posteriori", "a_priori") and len(c) >= 2:
+            T["used"] = "aposteriori" if rid == "a_posteriori" else "apriori"; T["m0-used"] = fval(c[1])
+            T["used-label"] = "aposteriori" if "aposteriori" in c[0] else "apriori"
+        elif len(c) >= 3 and c[2] == "%":
+            T["confidence-pct"] = fval(c[1])
+    for (rid, c) in H.get("standard_deviation_2") or []:
+        if rid in ("test_m0_passed", "test_m0_failed") and len(c) >= 5:
+            T["passed"] = (rid == "test_m0_passed"); T["lower"] = fval(c[2]); T["upper"] = fval(c[4])
+            m = re.match(r"^(\S+) % interval (contains|does not contain) value", c[0])
+            T["interval-pct"] = fval(m.group(1)) if m else None
+            T["passed-label"] = (m.group(2) == "contains") if m else None
+        elif rid == "confidence_scale" and len(c) >= 3: T["confidence-scale"] = fval(c[2])
+        elif c and c[0].startswith("Ratio m0'") and len(c) >= 3: T["ratio"] = fval(c[2])
+        else:
+            for key, lab in _PARTIAL:
+                if c and c[0] == lab.strip() and len(c) >= 3: T[key] = fval(c[2])
+    _stats_tail(" ".join(t for (_, t) in H.get("_p", [])), T)
+    return T
 
 
 # ---------------------------------------------------------------- tools
